@@ -1,10 +1,8 @@
 INIT GenInit
 NEXT GenNext
-CONSTANT Frames = {0, 1, 32}
+CONSTANT Frames = {0, 1, 512}
 CONSTANT Times = {0, 1, 2, 3, 4}
-CONSTANT Ws = {0, 1, 2, 3}
-CONSTANT MaxLen = 4
-CONSTANT W0MaxLen = 3
+CONSTANT LenOf <- L3443
 CONSTANT TicksPerMs = 1
 CONSTANT FullRx = FALSE
 CONSTANT Receivers = {0, 1}
